@@ -126,6 +126,18 @@ def run(tier, seed, pid=PID, flavour='plain', n=None, maxpop=2000):
             rt = 'FREQ=%s;BYMONTHDAY=1,2,29,30;BYMINUTE=14,54;SHIFT=%s;SCALE=%s;UNTIL=%04d%02d%02dT133059Z' % (rnd.choice(['YEARLY', 'MONTHLY']), rnd.choice(['1', '1', '2', '3', '1B', '2B']), sc, u.year, u.month, u.day)
             c = fam(nf, (d0.year, d0.month, d0.day, 13, 30, 59), rt); c['until'] = rrgen.inst((u.year, u.month, u.day, 13, 30, 59)); c['maxpop'] = 70
             cases.append(c); nf += 1
+    # events of many zones following one another in no order, some longer than others (which zone a process has used most changes
+    # all the time): DTSTART and a UTC UNTIL a few hours on bound the hourly occurrences of each exactly
+    zs = {zn: tzif.read('/usr/share/zoneinfo/' + zn) for zn in ('Europe/Berlin', 'America/New_York', 'Asia/Tokyo', 'Australia/Sydney', 'America/Sao_Paulo', 'Asia/Kolkata', 'Pacific/Auckland', 'America/Los_Angeles')}
+    zs = {k: v for k, v in zs.items() if v is not None}
+    for _ in range(1500 if tier == 'thorough' else 240):
+        zn = rnd.choice(sorted(zs)); y = rnd.choice([2019, 2022, 2025]); mo = rnd.choice([1, 2, 5, 6, 7, 8, 11, 12]); dd = rnd.randint(2, 27); h = rnd.randint(0, 23)
+        u0 = utc_of(zs[zn], int((D.datetime(y, mo, dd, h, 0) - E0).total_seconds()))
+        if u0 is None: continue
+        ue = E0 + D.timedelta(seconds=u0 + rnd.choice([3, 5, 9, 30]) * 3600 + 1800)
+        rt = 'FREQ=HOURLY;UNTIL=%s' % ue.strftime('%Y%m%dT%H%M%SZ')
+        c = fam(nf, (y, mo, dd, h, 0, 0), rt, zn); c['until'] = rrgen.inst((ue.year, ue.month, ue.day, ue.hour, ue.minute, ue.second)); c['maxpop'] = 70
+        cases.append(c); nf += 1
     nsl = vlib.NCPU; per = -(-len(cases) // nsl)
     env_asan = flavour == 'asan'
     if env_asan:
